@@ -639,11 +639,11 @@ func (rn *c12Runner) report(sc *c12Scenario, plan *c12Plan, o c12Outcome) {
 	}
 	in["operations"] = strings.Join(tr, " ")
 	if o.impl != "" {
-		rn.res.Violate(common.Violation{Kind: "impl-violation", Oracle: o.oname, Input: in, Detail: o.impl,
+		violate(rn.res, common.Violation{Kind: "impl-violation", Oracle: o.oname, Input: in, Detail: o.impl,
 			Key: rn.keyPrefix() + ":" + o.oname + ":" + sc.Name + ":" + plan.String()})
 	}
 	if o.corr != "" {
-		rn.res.Violate(common.Violation{Kind: "correspondence", Oracle: "faulty-put", Input: in, Detail: o.corr,
+		violate(rn.res, common.Violation{Kind: "correspondence", Oracle: "faulty-put", Input: in, Detail: o.corr,
 			Key: rn.keyPrefix() + ":corr:" + sc.Name + ":" + plan.String()})
 	}
 }
@@ -753,6 +753,23 @@ func c12AllScenarios(tier string) []c12Scenario {
 		pb.API = "putbytes"
 		pb.Name = "putbytes:" + sc.Name
 		out = append(out, pb)
+	}
+	// PutNoVerify is a third entry point into the same put: file faults on the small scenarios, and
+	// every source-reader fault where the output is already stored (for this id or for another one)
+	for _, sc := range scs {
+		if len(sc.Before) > 0 || len(sc.After) > 0 || len(sc.Data) > 5000 || strings.Contains(sc.Name, "damaged-") {
+			continue
+		}
+		if sc.Reader != "" && !strings.Contains(sc.Name, "/shared/") && !strings.Contains(sc.Name, "/same/") {
+			continue
+		}
+		if sc.Reader == "" && len(sc.Data) == 5000 && !strings.HasPrefix(sc.Name, "shared/") && !strings.HasPrefix(sc.Name, "same/") {
+			continue
+		}
+		nv := sc
+		nv.API = "putnoverify"
+		nv.Name = "putnoverify:" + sc.Name
+		out = append(out, nv)
 	}
 	return out
 }
